@@ -72,6 +72,15 @@ def gen(seed, tier):
                 acts.append([p, "touch", rng.randrange(0, n + 1)])
         case = {"prop": PROP, "d": d, "dflt": dflt, "z": z, "a": a, "acts": acts, "kind": "owned",
                 "fdflt": rng.random() < 0.15}
+        # configuration of the DESTINATION that must not matter: its ranks' formats, a declared shape, fibers
+        # built with their own default 0 inside a tensor of another default
+        r5 = rng.random()
+        if r5 < 0.2:
+            case["zcfg"] = {"fmt": [rng.choice("CU") for _ in range(d + 1)], "shape": [n + rng.randrange(1, 3)] * (d + 1)}
+        elif r5 < 0.3:
+            case["zcfg"] = {"shape": [n + rng.randrange(1, 3)] * (d + 1)}
+        elif r5 < 0.4 and not case["fdflt"]:
+            case["zcfg"] = {"fib0": True}
         if rng.random() < 0.2:
             # the source's top rank is declared uncompressed: the loop is offered every coordinate of its shape
             case.update({"fmtA": "U", "shapeA": n})
@@ -119,12 +128,15 @@ def run(case):
     if case.get("fdflt"):
         dflt = float(dflt)
     acts = {tuple(p): (code, v) for p, code, v in case["acts"]}
-    z = H.build_fiber(case["z"], d + 1, dflt)
+    zcfg = case.get("zcfg") or {}
+    z = H.build_fiber(case["z"], d + 1, 0 if (zcfg.get("fib0") and case["kind"] == "owned") else dflt)
     a = H.build_fiber(case["a"], d + 1, dflt)
     tz = ta = None
     if case["kind"] == "owned":
         ids = [f"R{d - k}" for k in range(d + 1)]
-        tz = ft.Tensor.fromFiber(rank_ids=ids, fiber=z, default=dflt)
+        tz = ft.Tensor.fromFiber(rank_ids=ids, fiber=z, default=dflt, shape=zcfg.get("shape"))
+        for rid, fm in zip(ids, zcfg.get("fmt", [])):
+            tz.setFormat(rid, fm)
         if isinstance(case.get("fmtA"), list):
             ta = ft.Tensor.fromFiber(rank_ids=ids, fiber=a, default=dflt,
                                      **({"shape": case["shapeA"]} if case.get("declaredA") else {}))
